@@ -40,7 +40,7 @@ fn first_diff_field(a: &str, b: &str) -> String {
 /// nb front-end: the application can read the session between any two events of a transaction (the
 /// power can be cut there): every such snapshot restores to an equal session.
 pub fn check_midflight(h: &History) -> Result<u32, Failure> {
-    if h.cfg.front != FrontKind::Nb {
+    if !h.cfg.front.is_nb() {
         return Ok(0);
     }
     let mut a = World::new(h).map_err(|e| Failure::new("harness", h.json(), e))?;
